@@ -96,7 +96,22 @@ def shift_case(draw, tier):
     return {"N": N, "order": order, "s": s, "kind": kind, "seed": draw(st.integers(0, 2 ** 31 - 1)),
             "data": draw(st.sampled_from(["noise", "poly", "poly", "ints", "ramp"])),
             "vec": draw(st.sampled_from(["smooth", "random", "piecewise", "out_of_range", "const_vec", "nearly_const", "nearly_const"])),
-            "vamp": draw(st.floats(0.0, 6.0))}
+            "vamp": draw(st.floats(0.0, 6.0)),
+            # how the shift is spelled: python float, numpy float64 / float32 scalar (and a float32 vector), python int
+            "stype": draw(st.sampled_from(["float", "float", "float", "np.float64", "np.float32", "int_if_integral"]))}
+
+
+def _spell(case, s):
+    """The object handed to timeshift and the real number it denotes."""
+    how = case.get("stype", "float")
+    if how == "np.float32":
+        v = np.float32(s)
+        return v, float(v)
+    if how == "np.float64":
+        return np.float64(s), float(s)
+    if how == "int_if_integral" and float(s).is_integer() and abs(s) < 2 ** 53:
+        return int(s), float(s)
+    return float(s), float(s)
 
 
 def _data(case):
@@ -162,12 +177,13 @@ def _shift_vector(case):
 
 def oracle_shift(case):
     from speckit.dsp import timeshift
-    N, order, s = case["N"], case["order"], case["s"]
+    N, order = case["N"], case["order"]
+    s_arg, s = _spell(case, case["s"])      # from here on `s` is the value the argument denotes
     x, coef = _data(case)
     xin = x.copy()
     mx = float(np.max(np.abs(x))) or 1.0
     viol = []
-    y = np.asarray(timeshift(x, s, order=order))
+    y = np.asarray(timeshift(x, s_arg, order=order))
     if not np.array_equal(x, xin):
         viol.append(V("timeshift_modifies_input"))
     if y.shape != (N,):
@@ -194,8 +210,12 @@ def oracle_shift(case):
             viol.append(V("polynomial_not_reproduced", n=n0, got=float(y[n0]), truth=float(truth[n0]), s=s, order=order, N=N))
     # time-varying path
     sv = _shift_vector(case)
+    sv_arg = sv
+    if case.get("stype") == "np.float32":
+        sv_arg = sv.astype(np.float32)
+        sv = sv_arg.astype(np.float64)
     try:
-        yv = np.asarray(timeshift(x, sv, order=order))
+        yv = np.asarray(timeshift(x, sv_arg, order=order))
     except Exception as exc:  # noqa: BLE001 - "no index error for any shift vector"
         viol.append(V("time_varying_path_raises", exc=type(exc).__name__, msg=str(exc)[:120], vec=case["vec"], order=order, N=N))
         yv = None
@@ -213,7 +233,7 @@ def oracle_shift(case):
             if np.any(np.abs(yv - y)[both] > 1e-12 * mx * np.maximum(sabs[both], 1.0)):
                 viol.append(V("constant_and_varying_paths_disagree", s=s, order=order, N=N))
     frac = not float(s).is_integer()
-    labels = ["shift:" + case["kind"], "vec:" + case["vec"]]
+    labels = ["shift:" + case["kind"], "vec:" + case["vec"], "stype:" + case.get("stype", "float")]
     if s < 0:
         labels.append("shift:negative")
     if interior.any():
